@@ -29,6 +29,12 @@ DETECT = {
  "C17": {"checks": "./check C17", "result": "VIOLATION with failing input: resolver area — the LRU resolver model and implementation disagree and the server-side table reconstruction gives a different topic (LRU capacity larger than the server's Topic Alias Maximum, return to an evicted topic); engine area monitor 1701", "note": ""},
  "C18": {"checks": "./check C18", "result": "VIOLATION with failing input: monitor 1803 (an operation whose ack deadline has passed is still incomplete after a successful service call) + lock-step difference in nst / tmo",
          "note": "first run: only no-failing-input-found: monitor 1801 stated 'never earlier' and 'never without a timeout' but not 'not later'. Monitor 1803 (mon_c18_late) was written because of this seed"},
+ "C01b": {"checks": "./check C01 (also C04)", "result": "VIOLATION with failing input: monitor 104 (after the second connection loss the retransmitted publish is an incomplete operation tracked in no queue and no pending table) + lock-step difference in rq", "note": ""},
+ "C02b": {"checks": "./check C16, ./check C02", "result": "C16: VIOLATION with failing input (a packet accepted by validation violates RUserPropertyValueLen); C02: VIOLATION with failing input, signature client-accepts-malformed:other (accepted by both validation stages, the emitted bytes are rejected by the specification decoder)",
+          "note": "first run: C16 reported it, C02 did not (its property monitor only judged packets valid for the wire specification). The client-path monitor of the C02 area was added because of this seed; on the unchanged tree it found D28"},
+ "C03b": {"checks": "./check C03, ./check C11", "result": "both: VIOLATION with failing input, signature panic (string length prefix overshooting its region by 1-2 bytes)", "note": "same slip as seed C11, found independently; written before the D27 fix touched the same function, applied three-way"},
+ "C04b": {"checks": "./check C04", "result": "VIOLATION with failing input: monitor 401 (after a CONNACK without session a restarted QoS 1/2 publish goes out with DUP=1) + lock-step difference in out", "note": ""},
+ "C07b": {"checks": "./check C07", "result": "VIOLATION with failing input: monitor 701 (a PUBREL is written after the CONNECT and before any CONNACK on the next connection) + lock-step differences (hq)", "note": ""},
 }
 sid = sys.argv[1]
 d = "/verif/seeded/%s" % sid
